@@ -255,6 +255,49 @@ static void fillSuite(Ctx& c, Rng& rng, Suite& s, const char* name, bool quad, u
 	}
 }
 
+// The recorded bound must stay above the displacement of every element that is STILL in the table when other elements are
+// removed: all keys share one home bucket (displacements far beyond 255 for the one-item buckets, i.e. a non-zero exponent in
+// the Open2N2 encoder), then keys are removed in random order - among them the ones resident in the home bucket itself,
+// whose metadata holds the bound - and after every removal each remaining key must be found and be covered by the bound.
+template<typename HashBucket, unsigned L>
+static void churnSuite(Ctx& c, Rng& rng, const char* name, unsigned rounds)
+{
+	typedef NoGrowTraits<HashBucket, L> Traits;
+	typedef momo::HashSet<uint64_t, Traits, momo::MemManagerDefault, momo::HashSetItemTraits<uint64_t, momo::MemManagerDefault>, SetNoCheck> Set;
+	typedef typename Set::Bucket Bucket;
+	const size_t n = size_t{1} << L;
+	for (unsigned round = 0; round < rounds; ++round) {
+		Set set;
+		std::vector<uint64_t> keys;
+		size_t home = (size_t)rng.below(n);
+		size_t total = std::min<size_t>(n * Bucket::maxCount, 420 * Bucket::maxCount);
+		for (size_t i = 0; i < total; ++i) { uint64_t key = ((uint64_t)(i + 1) << 32) | home; set.Insert(key); keys.push_back(key); }
+		size_t maxDisp = 0;
+		auto dispOf = [&](uint64_t key) { size_t idx = set.GetBucketIndex(key); size_t p = 0, cur = home; while (cur != idx && p < n) { ++p; cur = Bucket::GetNextBucketIndex(cur, key, n, p); } return p; };
+		for (uint64_t k : keys) maxDisp = std::max(maxDisp, dispOf(k));
+		if (maxDisp > 255) c.stats.count("churn.runs_with_displacement_gt_255");
+		size_t removals = keys.size() / 2;
+		for (size_t r = 0; r < removals; ++r) {
+			// every fourth removal takes a key that lives in the home bucket itself (if one is left)
+			size_t pick = (size_t)rng.below(keys.size());
+			if (r % 4 == 0) for (size_t j = 0; j < keys.size(); ++j) if (set.GetBucketIndex(keys[j]) == home) { pick = j; c.stats.count("churn.removed_from_home_bucket"); break; }
+			uint64_t victim = keys[pick];
+			keys.erase(keys.begin() + (ptrdiff_t)pick);
+			if (!set.Remove(victim)) c.fail("C13 churn: %s L=%u key to remove not found", name, L);
+			c.stats.evaluations++;
+			size_t bound = (*set.mBuckets)[home].GetMaxProbe(L);
+			bool every = (r % 16 == 0) || r < 8;
+			for (size_t j = 0; j < keys.size(); j += (every ? 1 : 7)) {
+				uint64_t k = keys[j];
+				if (!set.ContainsKey(k)) { c.fail("C13 lookup: %s L=%u after removing %zu keys (last: key %llu): present key %llu with home %zu is not found, recorded bound %zu", name, L, r + 1, (unsigned long long)victim, (unsigned long long)k, home, bound); r = removals; break; }
+				size_t d = dispOf(k);
+				if (d > bound) { c.fail("C13 bound: %s L=%u after removing %zu keys: displacement %zu of a present key exceeds the recorded bound %zu of home %zu", name, L, r + 1, d, bound, home); r = removals; break; }
+			}
+		}
+		c.stats.nontrivial(fmt("churn %s L=%u round=%u", name, L, round));
+	}
+}
+
 int main(int argc, char** argv)
 {
 	Ctx c = parseArgs(argc, argv);
@@ -279,6 +322,15 @@ int main(int argc, char** argv)
 		fillSuite<momo::HashBucketOpen8, 5>(c, rng, s, "Open8", true, r);
 		fillSuite<momo::HashBucketOpen8, 0>(c, rng, s, "Open8", true, 1);
 		fillSuite<momo::HashBucketOpen2N2<3>, 1>(c, rng, s, "Open2N2<3>", true, r);
+	}
+	{
+		unsigned r = c.thorough ? 6 : 2;
+		churnSuite<momo::HashBucketOpen2N2<1>, 9>(c, rng, "Open2N2<1>", r);
+		churnSuite<momo::HashBucketOpen2N2<2>, 9>(c, rng, "Open2N2<2>", r);
+		churnSuite<momo::HashBucketOpen2N2<3>, 9>(c, rng, "Open2N2<3>", r);
+		churnSuite<momo::HashBucketOpenN1<1, true>, 9>(c, rng, "OpenN1<1>", r);
+		churnSuite<momo::HashBucketOpenN1<3, false>, 8>(c, rng, "OpenN1<3>", r);
+		churnSuite<momo::HashBucketOpen8, 7>(c, rng, "Open8", r);
 	}
 	return c.finish();
 }
